@@ -57,9 +57,9 @@ def classify(msg):
     return None
 
 
-def run_verus(path, workdir, rlimit=None, threads=8):
-    cmd = ['verus', os.path.basename(path), '--output-json', '--time', '--multiple-errors', '5',
-           '--triggers-mode', 'silent', '--error-format=json', '--num-threads', str(threads)]
+def run_verus(path, workdir, rlimit=None, threads=8, extra=(), multiple_errors=5):
+    cmd = ['verus', os.path.basename(path), '--output-json', '--time', '--multiple-errors', str(multiple_errors),
+           '--triggers-mode', 'silent', '--error-format=json', '--num-threads', str(threads)] + list(extra)
     if rlimit:
         cmd += ['--rlimit', str(rlimit)]
     t0 = time.time()
@@ -214,6 +214,21 @@ def run_template(name, repo_src, workdir, canary=True, rlimit=None):
     open(path, 'w').write(gen.text())
     res = run_verus(path, workdir, rlimit)
     an = analyse(gen, res, name)
+    # A query that exceeds the resource limit gives no verdict.  A *failing* proof sometimes does that instead of
+    # failing cleanly, depending on solver heuristics.  Retry with other seeds and without the search for further
+    # errors; a definite failed obligation found by any run is a definite failed obligation.
+    if an['status'] == 'undecided' and an['limit_hits'] and len(an['tool_errors']) == an['limit_hits']:
+        retries = []
+        for seed in (1, 2, 3):
+            res2 = run_verus(path, workdir, rlimit, extra=['--smt-option', 'smt.random_seed=%d' % seed, '--smt-option', 'sat.random_seed=%d' % seed], multiple_errors=1)
+            an2 = analyse(gen, res2, name)
+            retries.append({'seed': seed, 'status': an2['status'], 'failures': len(an2['failures'])})
+            if an2['status'] == 'ok':
+                an2['retries'] = retries
+                an = an2
+                res = res2
+                break
+        an.setdefault('retries', retries)
     out.update(an)
     out.update({'functions': gen.functions, 'externals': gen.externals, 'rewrites': gen.rewrites,
                 'clauses': gen.clauses, 'notes': gen.notes, 'types': gen.types,
